@@ -4,6 +4,7 @@ import re
 from ..fn import World
 from ..index import AnalysisError, dotted
 from ..astutil import text, short, endswith, calls_in, walk_no_nested
+from ._h_E import Flow, arg, argn, return_nodes, return_cases, same_module_callees, is_const
 
 EXPLANATION = (
   "Decides that a formula text cannot take down the shared usercode module: every parser or "
@@ -30,59 +31,116 @@ def check(run, repo, tier):
   r5_stub(run, w)
 
 
-def _stub_return(h, fn):
-  """Does handler h return textbuilder.Text(_create_syntax_error_code(...)) on every path?"""
-  rets = [x for s in h.body for x in ast.walk(s) if isinstance(x, ast.Return)]
-  ok = bool(rets) and all(isinstance(r.value, ast.Call) and
-                          endswith(dotted(r.value.func), "Text") and r.value.args and
-                          isinstance(r.value.args[0], ast.Call) and
-                          dotted(r.value.args[0].func) == "_create_syntax_error_code"
-                          for r in rets)
-  last = h.body[-1]
-  return ok and isinstance(last, ast.Return)
+PARSERS = ("astroid.parse", "ast.parse", "compile")
 
 
-def _parse_sites(fn):
-  """AST nodes in fn that parse / compile user text."""
+def _is_call_of(e, *names):
+  return isinstance(e, ast.Call) and dotted(e.func) in names
+
+
+def _is_stub(flow):
+  """pred(expr, nid): expr is textbuilder.Text(_create_syntax_error_code(...)), the inner call
+  written inline or through a local."""
+  def inner(x, n):
+    return _is_call_of(x, "_create_syntax_error_code")
+  def pred(e, nid):
+    if not (isinstance(e, ast.Call) and endswith(dotted(e.func), "Text")):
+      return False
+    a0 = arg(e, 0, "text")
+    return a0 is not None and flow.denotes(a0, nid, inner)
+  return pred
+
+
+def _stub_returns(fn, flow):
+  """ids of the return nodes whose every possible value is the syntax-error stub."""
+  pred = _is_stub(flow)
+  return {n.id for n in return_nodes(flow.cfg) if n.stmt.value is not None and
+          flow.denotes(n.stmt.value, n.id, pred)}
+
+
+def _handler_returns_stub(fn, flow, h):
+  """Every path out of handler h is a `return <stub>`: it neither falls through to the rest of the
+  function, nor returns anything else, nor raises."""
+  cfg = flow.cfg
+  hn = [n.id for n in cfg.nodes if n.kind == "handler" and n.stmt is h]
+  if not hn:
+    raise AnalysisError("%s: handler has no CFG node" % fn.qualname)
+  stubs = _stub_returns(fn, flow)
+  if not stubs:
+    return False
+  after = cfg.reach_after(set(hn), removed=stubs)
+  return not (after & {cfg.exit.id, cfg.raise_exit.id})
+
+
+def _direct_parse_kinds(node):
+  """Parser/compiler entry points evaluated directly inside ast `node` (not in nested defs)."""
+  out = set()
+  for n in walk_no_nested(node):
+    if isinstance(n, ast.Attribute) and n.attr == "tree" and isinstance(n.ctx, ast.Load):
+      out.add("asttokens parse (.tree)")
+    elif isinstance(n, ast.Call) and dotted(n.func) in PARSERS:
+      out.add(dotted(n.func))
+  return out
+
+
+def _parse_sites(w, fn):
+  """[(kind, ast node, needs AstroidSyntaxError)] for everything in fn that parses / compiles user
+  text: the parser entry points themselves and calls of codebuilder helpers that reach one."""
   out = []
   for s in fn.node.body:
     for n in walk_no_nested(s):
       if isinstance(n, ast.Attribute) and n.attr == "tree" and isinstance(n.ctx, ast.Load):
-        out.append(("asttokens parse (.tree)", n))
+        out.append(("asttokens parse (.tree)", n, False))
       elif isinstance(n, ast.Call):
         d = dotted(n.func)
-        if d in ("astroid.parse", "ast.parse", "compile", "_check_compiles"):
-          out.append((d, n))
+        if d in PARSERS:
+          out.append((d, n, d == "astroid.parse"))
+          continue
+        kinds = set()
+        for fi in same_module_callees(w, fn, n, depth=2):
+          if fi.module is fn.fi.module and fi.qualname != fn.qualname:
+            for b in fi.node.body:
+              kinds |= _direct_parse_kinds(b)
+        if kinds:
+          out.append((d or "helper", n, "astroid.parse" in kinds))
   return out
 
 
-def _enclosing_try(fn, node):
-  best = None
+def _enclosing_trys(fn, node):
+  """Try statements whose body (at any depth) contains node, innermost first."""
+  out = []
   for t in ast.walk(fn.node):
     if isinstance(t, ast.Try) and any(x is node for b in t.body for x in ast.walk(b)):
-      best = t     # innermost last in walk order is fine: nested trys both enclose
-  return best
+      out.append(t)
+  out.sort(key=lambda t: sum(1 for _ in ast.walk(t)))
+  return out
 
 
-def _catches(t, names):
-  got = set()
-  for h in t.handlers:
-    if h.type is None:
-      return True
-    hs = h.type.elts if isinstance(h.type, ast.Tuple) else [h.type]
-    for x in hs:
-      got.add((dotted(x) or "").split(".")[-1])
-  return bool(got & {"Exception", "BaseException"}) or set(names) <= got
+def _handler_for(trys, exc_name):
+  """The handler that receives exception class `exc_name` raised inside the innermost of `trys`."""
+  for t in trys:
+    for h in t.handlers:
+      if h.type is None:
+        return h
+      hs = h.type.elts if isinstance(h.type, ast.Tuple) else [h.type]
+      got = {(dotted(x) or "").split(".")[-1] for x in hs}
+      if got & {"Exception", "BaseException", exc_name}:
+        return h
+  return None
 
 
 def r1_fenced(run, w):
   R1 = run.rule("C19-R1", "every parse/compile of user text in _do_make_formula_body is inside a "
                 "try whose handler returns the syntax-error stub", floor=3)
   fn = w.fn(CB)
-  for kind, node in _parse_sites(fn):
-    t = _enclosing_try(fn, node)
-    need = ["SyntaxError"] + (["AstroidSyntaxError"] if kind == "astroid.parse" else [])
-    ok = t is not None and _catches(t, need) and all(_stub_return(h, fn) for h in t.handlers)
+  flow = Flow(fn)
+  for kind, node, astroid_too in _parse_sites(w, fn):
+    trys = _enclosing_trys(fn, node)
+    need = ["SyntaxError"] + (["AstroidSyntaxError"] if astroid_too else [])
+    ok = True
+    for exc in need:
+      h = _handler_for(trys, exc)
+      ok = ok and h is not None and _handler_returns_stub(fn, flow, h)
     run.ob(R1, fn.qualname, "%s: %s" % (kind, short(node, 60)),
            "a syntax error found here is turned into an error stub for this column only", ok,
            fi=fn.fi, node=node)
@@ -194,15 +252,32 @@ def r2_line_model(run, w):
          "every line-based step sees text whose only line break is LF", ok,
          witness=cfg.describe_path(cfg.path(cfg.entry.id, set(bad[:1]), removed=norm_nodes))
          if bad else None, fi=fn.fi)
-  # the normalised builder is the one used afterwards: result assigned to the variable that the
-  # later steps read
-  ok = False
-  for n in cfg.nodes:
-    if n.id in norm_nodes and n.kind == "stmt" and isinstance(n.stmt, ast.Assign) and \
-        isinstance(n.stmt.targets[0], ast.Name):
-      var = n.stmt.targets[0].id
-      c = n.stmt.value
-      ok = isinstance(c, ast.Call) and c.args and text(c.args[0]) == var
+  # the normalised builder is the one used afterwards: the normaliser's result is kept (assigned or
+  # passed on), and the raw builder it was given is not read again by any later step
+  flow = Flow(fn)
+  ok = bool(norm_nodes)
+  for nid in norm_nodes:
+    n = cfg.nodes[nid]
+    for c in calls_in(n.exprs):
+      if fn.name(c) != nfi.name:
+        continue
+      kept = (n.kind == "stmt" and isinstance(n.stmt, (ast.Assign, ast.AnnAssign)) and
+              n.stmt.value is c and all(isinstance(t, ast.Name) for t in
+                                        (n.stmt.targets if isinstance(n.stmt, ast.Assign)
+                                         else [n.stmt.target]))) or \
+          any(isinstance(p, ast.Call) and any(a is c for a in list(p.args) +
+                                              [k.value for k in p.keywords])
+              for e in n.exprs for p in walk_no_nested(e))
+      ok = ok and kept and len(c.args) + len(c.keywords) == 1
+      raw = c.args[0] if c.args else (c.keywords[0].value if c.keywords else None)
+      if isinstance(raw, ast.Name):
+        rdefs = flow.reaching(raw.id, nid)[0]
+        for m in cfg.reach_after({nid}):
+          for e in cfg.nodes[m].exprs:
+            for x in walk_no_nested(e, into_lambda=True):
+              if isinstance(x, ast.Name) and isinstance(x.ctx, ast.Load) and x.id == raw.id and \
+                  (flow.reaching(raw.id, m)[0] & rdefs):
+                ok = False
   run.ob(R2, fn.qualname, "x = %s(x)" % nfi.name, "the normalised text replaces the raw text for "
          "all later steps (positions stay mappable through the textbuilder)", ok, fi=fn.fi)
   # the normaliser goes through textbuilder (so renames can map positions back)
@@ -211,61 +286,141 @@ def r2_line_model(run, w):
          "patch set, not a lossy string replace", ok, fi=nfi)
 
 
+def _tree_pred(x, n):
+  """The parsed tree of the formula: asttokens' lazily parsed `.tree`."""
+  return isinstance(x, ast.Attribute) and x.attr == "tree"
+
+
+def _walks_tree(flow, it, nid):
+  """`it` is ast.walk(T) with T the parsed tree."""
+  return _is_call_of(it, "ast.walk") and len(it.args) == 1 and \
+      flow.denotes(it.args[0], nid, _tree_pred)
+
+
+def _const_arg(w, fn, flow, c, index):
+  a = argn(w, fn, c, index)
+  if a is None:
+    return None
+  a = flow.resolve(a, flow.at(c))[0]
+  return a.value if isinstance(a, ast.Constant) else None
+
+
+def _patches_inserting(w, fn, flow, new_text):
+  return [c for c in calls_in(fn.node) if endswith(fn.name(c), "make_patch") and
+          flow.where(c) and _const_arg(w, fn, flow, c, 3) == new_text]
+
+
 def r3_translation(run, w):
   R3 = run.rule("C19-R3", "$name -> rec.name only at ast.Name nodes; `return` only before a final "
                 "expression statement", floor=3)
   fn = w.fn(CB)
+  flow = Flow(fn)
+  cfg = fn.cfg
+
+  def walk_var(e, nid):
+    """e is the variable of a `for ... in ast.walk(<parsed tree>)` loop."""
+    src = flow.loop_source(e, nid)
+    return src is not None and _walks_tree(flow, src[0], src[1])
+
+  def is_name_node(e, nid):
+    return _is_call_of(e, "isinstance") and len(e.args) == 2 and text(e.args[1]) == "ast.Name" \
+        and walk_var(e.args[0], nid)
+
+  def is_dollar_id(e, nid):
+    return isinstance(e, ast.Call) and isinstance(e.func, ast.Attribute) and \
+        e.func.attr == "startswith" and len(e.args) == 1 and is_const(e.args[0], "DOLLAR") and \
+        isinstance(e.func.value, ast.Attribute) and e.func.value.attr == "id" and \
+        walk_var(e.func.value.value, nid)
+
+  def is_dollar_match(e, nid):
+    return flow.denotes(e, nid, lambda x, n: isinstance(x, ast.Call) and
+                        isinstance(x.func, ast.Attribute) and x.func.attr == "match")
+
   # (a) the 'rec.' patch
-  recs = [c for c in calls_in(fn.node) if endswith(dotted(c.func), "make_patch") and
-          len(c.args) == 4 and isinstance(c.args[3], ast.Constant) and c.args[3].value == "rec."]
+  recs = _patches_inserting(w, fn, flow, "rec.")
+  if not recs:
+    raise AnalysisError("_do_make_formula_body: the make_patch(..., 'rec.') call was not found "
+                        "(translation moved?)")
   ok = len(recs) == 1
-  if ok:
-    c = recs[0]
-    conds = []
-    for n in ast.walk(fn.node):
-      if isinstance(n, ast.If) and any(x is c for b in n.body for x in ast.walk(b)):
-        conds.append(text(n.test))
-    loops = [n for n in ast.walk(fn.node) if isinstance(n, ast.For) and
-             any(x is c for b in n.body for x in ast.walk(b))]
-    ok = any("isinstance(node, ast.Name)" in t and "startswith('DOLLAR')" in t for t in conds) \
-        and any(text(l.iter) == "ast.walk(tree)" for l in loops) and \
-        any(t in ("m",) for t in conds)
+  for c in recs:
+    for nid in flow.where(c):
+      ok = ok and flow.guarded(nid, is_name_node, True) and flow.guarded(nid, is_dollar_id, True) \
+          and flow.guarded(nid, is_dollar_match, True)
   run.ob(R3, fn.qualname, "patch '$' -> 'rec.' under isinstance(node, ast.Name) for node in "
          "ast.walk(tree)", "dollar signs inside strings and comments are never rewritten (they "
          "are not Name nodes of the parsed tree)", ok, fi=fn.fi)
+
   # (b) the 'return ' patch
-  rets = [c for c in calls_in(fn.node) if endswith(dotted(c.func), "make_patch") and
-          len(c.args) == 4 and isinstance(c.args[3], ast.Constant) and
-          c.args[3].value == "return "]
+  def last_stmt_leaf(x, n):
+    """tree.body[-1] (or the None standing for an empty body)."""
+    if is_const(x, None):
+      return True
+    return isinstance(x, ast.Subscript) and text(x.slice) == "-1" and \
+        isinstance(x.value, ast.Attribute) and x.value.attr == "body" and \
+        flow.denotes(x.value.value, n, _tree_pred)
+
+  def is_last(e, nid):
+    ls = flow.leaves(e, nid)
+    return bool(ls) and all(last_stmt_leaf(l.expr, l.nid) for l in ls) and \
+        any(not is_const(l.expr, None) for l in ls)
+
+  rets = _patches_inserting(w, fn, flow, "return ")
+  if not rets:
+    raise AnalysisError("_do_make_formula_body: the make_patch(..., 'return ') call was not found "
+                        "(translation moved?)")
   ok = len(rets) == 1
-  if ok:
-    c = rets[0]
-    conds = [text(n.test) for n in ast.walk(fn.node) if isinstance(n, ast.If) and
-             any(x is c for b in n.body for x in ast.walk(b))]
-    ls = [text(v) for v in _defs(fn.node, "last_statement")]
-    ok = "isinstance(last_statement, ast.Expr)" in conds and \
-        ls == ["tree.body[-1] if tree.body else None"] and \
-        text(c.args[1]) == text(c.args[2])
-    pos = _defs(fn.node, text(c.args[1]))
-    ok = ok and any(text(v) == "tmp_formula.map_back_offset(startpos)" for v in pos)
-    start = _defs(fn.node, "startpos")
-    ok = ok and any(text(v) == "atok.get_text_range(last_statement)[0]" for v in start)
+  for c in rets:
+    for nid in flow.where(c):
+      a_start, a_end = argn(w, fn, c, 1), argn(w, fn, c, 2)
+      if a_start is None or a_end is None:
+        ok = False
+        continue
+      ok = ok and flow.same_value(a_start, nid, a_end, nid)
+      # the position: tmp_formula.map_back_offset(atok.get_text_range(<last statement>)[0])
+      pos, pn = flow.resolve(a_start, nid)
+      stmt_arg = None
+      if isinstance(pos, ast.Call) and isinstance(pos.func, ast.Attribute) and \
+          pos.func.attr == "map_back_offset" and len(pos.args) == 1:
+        st, sn = flow.resolve(pos.args[0], pn)
+        if isinstance(st, ast.Subscript) and is_const(st.slice, 0):
+          rng, rn = flow.resolve(st.value, sn)
+          if isinstance(rng, ast.Call) and isinstance(rng.func, ast.Attribute) and \
+              rng.func.attr == "get_text_range" and len(rng.args) == 1:
+            stmt_arg = (rng.args[0], rn)
+      ok = ok and stmt_arg is not None and is_last(*stmt_arg)
+      def is_expr_stmt(e, i):
+        return _is_call_of(e, "isinstance") and len(e.args) == 2 and \
+            text(e.args[1]) == "ast.Expr" and is_last(e.args[0], i) and \
+            (stmt_arg is None or flow.same_value(e.args[0], i, stmt_arg[0], stmt_arg[1]))
+      ok = ok and flow.guarded(nid, is_expr_stmt, True)
   run.ob(R3, fn.qualname, "insert 'return ' at the start of tree.body[-1] when it is an ast.Expr",
          "the value of the last expression statement is what the formula returns", ok, fi=fn.fi)
+
   # (c) the missing-return error is raised only when no `return` occurs anywhere in the formula
-  ok = False
-  for n in ast.walk(fn.node):
-    if isinstance(n, ast.If) and any(isinstance(x, ast.Call) and
-                                     dotted(x.func) == "GristSyntaxError"
-                                     for b in n.body for x in ast.walk(b)):
-      t = n.test
-      if isinstance(t, ast.UnaryOp) and isinstance(t.op, ast.Not) and \
-          isinstance(t.operand, ast.Call) and dotted(t.operand.func) == "any" and \
-          isinstance(t.operand.args[0], ast.GeneratorExp):
-        g = t.operand.args[0]
-        elt_ok = "ast.Return" in text(g.elt)
-        src = text(g.generators[0].iter)
-        ok = elt_ok and "ast.walk(tree)" in src and not g.generators[0].ifs
+  def any_return_call(x, n):
+    if not (_is_call_of(x, "any") and len(x.args) == 1 and
+            isinstance(x.args[0], (ast.GeneratorExp, ast.ListComp))):
+      return False
+    return "ast.Return" in text(x.args[0].elt)
+
+  def scans_whole_tree(x, n):
+    g = x.args[0]
+    if len(g.generators) != 1 or g.generators[0].ifs:
+      return False
+    return any(_walks_tree(flow, y, n) for y in ast.walk(g.generators[0].iter))
+
+  errs = [c for c in calls_in(fn.node) if dotted(c.func) == "GristSyntaxError" and flow.where(c)]
+  tests = [(e, n.id) for n in cfg.nodes if n.kind == "if" for e in ast.walk(n.stmt.test)
+           if any(any_return_call(l.expr, l.nid) for l in flow.leaves(e, n.id))] \
+      if errs else []
+  if errs and not tests:
+    raise AnalysisError("_do_make_formula_body: the `any(<is ast.Return> ...)` test guarding the "
+                        "missing-return error was not recognised")
+  ok = bool(errs)
+  for c in errs:
+    for nid in flow.where(c):
+      ok = ok and flow.guarded(nid, lambda e, i: flow.denotes(
+        e, i, lambda x, n: any_return_call(x, n) and scans_whole_tree(x, n)), False)
   run.ob(R3, fn.qualname, "if not any(<is ast.Return> for node in ...ast.walk(tree)): error",
          "a formula is rejected for a missing return only when it contains no return statement "
          "at all (returns in earlier statements count)", ok, fi=fn.fi)
@@ -275,31 +430,32 @@ def r3_translation(run, w):
          "produce a value is reported, not silently None", ok, fi=fn.fi, nontrivial=False)
 
 
-def _defs(fnode, name):
-  return [n.value for s in fnode.body for n in walk_no_nested(s)
-          if isinstance(n, ast.Assign) and any(isinstance(t, ast.Name) and t.id == name
-                                               for t in n.targets)]
-
-
 def r4_compile_acceptor(run, w):
   R4 = run.rule("C19-R4", "the translated body is returned only after compile() accepted it as a "
                 "function body, inside the syntax-error fence", floor=3)
   fn = w.fn(CB)
   cfg = fn.cfg
+  flow = Flow(fn)
   # acceptor: a codebuilder function that calls builtin compile on 'def ...' + indented body
   mod = w.repo.module("codebuilder")
   acceptors = []
   for fi in mod.functions.values():
+    afn = w.fn_of(fi)
+    aflow = None
     for c in calls_in(fi.node):
-      if dotted(c.func) == "compile" and c.args:
-        src = c.args[0]
-        srcs = [src] + ([v for v in _defs(fi.node, src.id)] if isinstance(src, ast.Name) else [])
-        for s_ in srcs:
-          if isinstance(s_, ast.BinOp) and isinstance(s_.op, ast.Add) and \
-              isinstance(s_.left, ast.Constant) and isinstance(s_.left.value, str) and \
-              s_.left.value.startswith("def ") and s_.left.value.endswith(":\n") and \
-              "_indent(" in text(s_.right):
-            acceptors.append(fi)
+      if dotted(c.func) == "compile" and (c.args or c.keywords):
+        aflow = aflow or Flow(afn)
+        if not aflow.where(c):
+          continue
+        src = arg(c, 0, "source")
+        if src is None:
+          continue
+        s_ = aflow.inline(src, aflow.at(c))
+        if isinstance(s_, ast.BinOp) and isinstance(s_.op, ast.Add) and \
+            isinstance(s_.left, ast.Constant) and isinstance(s_.left.value, str) and \
+            s_.left.value.startswith("def ") and s_.left.value.endswith(":\n") and \
+            "_indent(" in text(s_.right) and fi not in acceptors:
+          acceptors.append(fi)
   run.ob(R4, "codebuilder", "acceptor: compile('def f(...):\\n' + _indent(body).get_text(), ...)",
          "the body is compiled the way the module will use it: as a function body", bool(acceptors),
          nontrivial=False)
@@ -308,9 +464,10 @@ def r4_compile_acceptor(run, w):
   names = {a.name for a in acceptors}
   acc_nodes = fn.nodes_calling(lambda c, nm, f: nm in names)
   # the return of the translated body
-  finals = [n for n in cfg.nodes if n.kind == "return" and isinstance(n.stmt.value, ast.Name) and
-            any(isinstance(v, ast.Call) and endswith(dotted(v.func), "Replacer")
-                for v in _defs(fn.node, n.stmt.value.id))]
+  def is_replacer(x, n):
+    return isinstance(x, ast.Call) and endswith(dotted(x.func), "Replacer")
+  finals = [n for n in cfg.nodes if n.kind == "return" and n.stmt.value is not None and
+            flow.denotes_some(n.stmt.value, n.id, is_replacer)]
   if not finals:
     raise AnalysisError("_do_make_formula_body: return of the translated body not found")
   for r in finals:
@@ -323,8 +480,9 @@ def r4_compile_acceptor(run, w):
     for a in acc_nodes:
       for c in calls_in(cfg.nodes[a].exprs):
         if fn.name(c) in names:
+          a0 = argn(w, fn, c, 0)
           run.ob(R4, fn.qualname, short(c), "the builder compiled is the builder returned",
-                 bool(c.args) and text(c.args[0]) == text(r.stmt.value), fi=fn.fi, node=c)
+                 a0 is not None and flow.same_value(a0, a, r.stmt.value, r.id), fi=fn.fi, node=c)
   # the acceptor's own errors are positioned relative to the body (so the stub points at the
   # user's line): lineno is shifted by the header line
   for a in acceptors:
@@ -335,8 +493,12 @@ def r4_compile_acceptor(run, w):
            "compile errors are re-raised with positions relative to the formula", ok, fi=a)
   # consumer really is compile() of the whole module
   ex = w.fn("gencode.exec_module_text")
-  ok = any(dotted(c.func) == "compile" and text(c.args[0]) == ex.fi.params()[0]
-           for c in calls_in(ex.node))
+  xflow = Flow(ex)
+  ok = False
+  for c in calls_in(ex.node):
+    if dotted(c.func) == "compile" and xflow.where(c):
+      src = arg(c, 0, "source")
+      ok = ok or (src is not None and xflow.itext(src, xflow.at(c)) == ex.fi.params()[0])
   run.ob(R4, ex.qualname, "compile(module_text, ...)", "all formulas are consumed by one "
          "compile() of the module (hence the need for the per-formula acceptor)", ok, fi=ex.fi,
          nontrivial=False)
@@ -346,21 +508,28 @@ def r5_stub(run, w):
   R5 = run.rule("C19-R5", "the syntax-error stub comments out every input line and embeds user "
                 "text only through repr", floor=2)
   fn = w.fn("codebuilder._create_syntax_error_code")
-  rets = [n for n in ast.walk(fn.node) if isinstance(n, ast.Return)]
+  flow = Flow(fn)
+  cases = return_cases(flow)
   ok = False
-  if len(rets) == 1 and isinstance(rets[0].value, ast.BinOp) and \
-      isinstance(rets[0].value.op, ast.Mod) and isinstance(rets[0].value.left, ast.Constant):
-    fmt = rets[0].value.left.value
-    args = rets[0].value.right.elts if isinstance(rets[0].value.right, ast.Tuple) else []
-    specs = re.findall(r"%[sr]", fmt)
-    ok = len(specs) == len(args) and fmt.startswith("%s\nraise %s(")
-    for sp, a in zip(specs, args):
-      if sp == "%s":
-        t = text(a)
-        ok = ok and (t.endswith(".__name__") or
-                     (isinstance(a, ast.Call) and endswith(dotted(a.func), "line_start_re.sub")
-                      and isinstance(a.args[0], ast.Constant) and
-                      a.args[0].value.startswith("#")))
+  if len(cases) == 1 and isinstance(cases[0][1].expr, ast.BinOp) and \
+      isinstance(cases[0][1].expr.op, ast.Mod):
+    leaf = cases[0][1]
+    fmt_e = flow.resolve(leaf.expr.left, leaf.nid)[0]
+    right = flow.resolve(leaf.expr.right, leaf.nid)[0]
+    if isinstance(fmt_e, ast.Constant) and isinstance(fmt_e.value, str):
+      fmt = fmt_e.value
+      args = right.elts if isinstance(right, ast.Tuple) else []
+      specs = re.findall(r"%[sr]", fmt)
+      ok = len(specs) == len(args) and fmt.startswith("%s\nraise %s(")
+      for sp, a in zip(specs, args):
+        if sp == "%s":
+          for l in flow.leaves(a, leaf.nid):
+            a_ = l.expr
+            sub = isinstance(a_, ast.Call) and endswith(dotted(a_.func), "line_start_re.sub")
+            prefix = flow.resolve(a_.args[0], l.nid)[0] if sub and a_.args else None
+            ok = ok and (text(a_).endswith(".__name__") or
+                         (sub and isinstance(prefix, ast.Constant) and
+                          isinstance(prefix.value, str) and prefix.value.startswith("#")))
   run.ob(R5, fn.qualname, "'%s\\nraise %s(%r, (..., %r, %r, %r))' % (commented input, type, ...)",
          "the only raw insertions are the commented-out input and an exception class name; "
          "everything else goes through repr", ok, fi=fn.fi)
